@@ -241,6 +241,7 @@ class Server:
           which becomes available once another thread gathers the result from (another end of) the pipeline.
         """
         self._pipeline_notfull = threading.Condition()
+        self._stopped = False
         _enter_server(self)
         return self
 
@@ -258,11 +259,18 @@ class Server:
             self._onboard_thread.join()
         self.servlet.stop()
         self._gather_thread.join()
-        # Results overtaken by the stop sentinel are never gathered; do not carry
-        # their ledger entries into the next `__enter__`.
-        for fut in self._uid_to_futures.values():
-            fut.cancel()
-        self._uid_to_futures.clear()
+        with self._pipeline_notfull:
+            # Results overtaken by the stop sentinel are never gathered; do not carry
+            # their ledger entries into the next `__enter__`.
+            for fut in self._uid_to_futures.values():
+                fut.cancel()
+            self._uid_to_futures.clear()
+            # A caller may still be waiting for room, e.g. the feeder thread of a `stream` that
+            # the user has left without closing. No slot will be announced any more; wake it up
+            # (it is rejected in `_enqueue`) rather than let it sit out its timeout, which would
+            # also block the eventual closing of that stream.
+            self._stopped = True
+            self._pipeline_notfull.notify_all()
 
     def call(self, x, /, *, timeout: int | float = 60, backpressure: bool = True):
         """
@@ -328,7 +336,7 @@ class Server:
         uid = next(self._uid_counter)
 
         with self._pipeline_notfull:
-            while len(pipeline) >= self._capacity:
+            while len(pipeline) >= self._capacity and not self._stopped:
                 # Re-check after every wake-up: another caller may have taken the
                 # freed slot before this one re-acquired the lock.
                 if backpressure:
@@ -336,6 +344,9 @@ class Server:
                 t = timeout * 0.99 - (perf_counter() - t0)
                 if t <= 0 or not self._pipeline_notfull.wait(t):
                     raise ServerBacklogFull(len(pipeline), perf_counter() - t0)
+            if self._stopped:
+                # The server has been left (while this caller was waiting for room).
+                raise ServerBacklogFull(len(pipeline), perf_counter() - t0)
 
             pipeline[uid] = fut
             self._input_buffer.put((uid, x))
